@@ -46,6 +46,41 @@ Proof. exact loop_exit_condition. Qed.
 Theorem C20_kkt_test : forall R, rsca R = 0%Z -> R < c_1e10 \/ (1 <= R /\ R < 4).
 Proof. exact rsca_zero. Qed.
 
+(* 5'. ... and that matrix IS the input |K| scaled by the exponents the loop returns (accumulated sums of the
+       per-round exponents): every column of  diag(2^D') |K| diag(2^D')  has absolute sum in [1,4) or is empty *)
+Theorem C20_kkt_normalised : forall n es D',
+  scale_symmetric n es = Some D' ->
+  length D' = n /\
+  forall j, (j < n)%nat ->
+    let R := nth j (col_sums n (rescale (abs_entries es) D')) 0 in
+    R < c_1e10 \/ (1 <= R /\ R < 4).
+Proof. exact equilibration_normalises. Qed.
+(* the Scaling object built from it: variable weights are the negated first n exponents, constraint weights the rest *)
+Theorem C20_from_kkt_weights : forall n m H J sc, from_kkt n m H J = Some sc ->
+  exists w, scale_symmetric (n + m) (kkt_entries n H J) = Some w /\ length w = (n + m)%nat /\
+            vw sc = map Z.opp (firstn n w) /\ cw sc = skipn n w /\ ow sc = 0%Z /\
+            forall j, (j < n + m)%nat ->
+              let R := nth j (col_sums (n + m) (rescale (abs_entries (kkt_entries n H J)) w)) 0 in
+              R < c_1e10 \/ (1 <= R /\ R < 4).
+Proof.
+  intros n m H J sc E. destruct (from_kkt_inv _ _ _ _ _ E) as [w [S ->]].
+  exists w. destruct (equilibration_normalises _ _ _ S) as [L N].
+  split; [exact S|]. split; [exact L|]. split; [reflexivity|]. split; [reflexivity|]. split; [reflexivity|]. exact N.
+Qed.
+
+(* 6. what the solver builds for itself (scale.py create_scaling, tied by unit `create_scaling`): the Nominal scaling is
+      taken from the scaling point itself and the constraint values there; GradJac from the gradient and Jacobian there *)
+Theorem C20_create_scaling_nominal : forall P xs ys sc, create_scaling 0 P xs ys = Some sc ->
+  forall j, (j < length xs)%nat -> ~ nth j xs 0 == 0 ->
+  let w := nth j (vw sc) 0%Z in
+  1 <= qabs (ldexp (nth j xs 0) w) /\ qabs (ldexp (nth j xs 0) w) < 2.
+Proof. intros P xs ys sc E. injection E as <-. intros j Hj Hx. exact (nominal_ok xs (p_cons P xs) 1 j Hj Hx). Qed.
+Theorem C20_create_scaling_gradjac : forall P xs ys sc, create_scaling 1 P xs ys = Some sc ->
+  forall j, (j < length (p_grad P xs))%nat -> ~ nth j (p_grad P xs) 0 == 0 ->
+  1 <= qabs (nth j (p_grad P xs) 0) * p2 (ow sc - nth j (vw sc) 0%Z)
+  /\ qabs (nth j (p_grad P xs) 0) * p2 (ow sc - nth j (vw sc) 0%Z) < 2.
+Proof. intros P xs ys sc E. injection E as <-. intros j Hj Hx. exact (gradjac_gradient_ok (p_grad P xs) (p_jac P xs) j Hj Hx). Qed.
+
 (* non-vacuity: entries smaller than one (the case the pinned tree got wrong: row [0.001, 0.002]) *)
 Example C20_nonvacuous :
   let sc := from_grad_jac [1; 1] [[1 # 1000; 2 # 1000]] in
@@ -63,3 +98,7 @@ Print Assumptions C20_gradjac_gradient.
 Print Assumptions C20_gradjac_rows.
 Print Assumptions C20_kkt_exit.
 Print Assumptions C20_kkt_test.
+Print Assumptions C20_kkt_normalised.
+Print Assumptions C20_from_kkt_weights.
+Print Assumptions C20_create_scaling_nominal.
+Print Assumptions C20_create_scaling_gradjac.
